@@ -19,8 +19,9 @@
      final    = [verdict; IsShutdownErr; IsPermanent] of the error returned by Send
    kind 1 (hdr[0] = 1): BackOffConfig.Validate
      hdr      = [1; enabled; init; rf_num; rf_den; mult_num; mult_den; max_interval; max_elapsed; isnil]
-     payload  = bytes of the error message (empty when nil) *)
-From Verif Require Import Common.Base Generated.C05BackoffValidate C05.Model.
+     payload  = bytes of the error message (empty when nil)
+   kind 2 (hdr[0] = 2): TimeoutConfig.Validate, hdr = [2; timeout; isnil] *)
+From Verif Require Import Common.Base Generated.C05BackoffValidate Generated.C05RetryGo C05.Model.
 From Coq Require Import String Ascii.
 Local Open Scope Z_scope.
 
@@ -183,9 +184,15 @@ Definition check_validate (c : wire_case) : bool :=
   | Some s => (zn h 9 =? 0) && listZ_eqb (bytes_of_string s) msg
   end.
 
+(* kind 2: TimeoutConfig.Validate on hdr = [2; timeout; isnil] — the translated function and the model's domain *)
+Definition check_timeout_validate (c : wire_case) : bool :=
+  let '(h, _) := c in
+  Bool.eqb (match timeout_validate (zn h 1) with None => true | Some _ => false end) (zn h 2 =? 1) &&
+  Bool.eqb (timeout_ok (zn h 1)) (zn h 2 =? 1).
+
 Definition check_case (c : wire_case) : bool :=
   let '(h, _) := c in
-  if zn h 0 =? 0 then check_run c else check_validate c.
+  if zn h 0 =? 0 then check_run c else if zn h 0 =? 1 then check_validate c else check_timeout_validate c.
 
 (* for replay files: what the model says for the inputs of a case *)
 Definition model_out (c : wire_case) : (list (list Z * Z) * (list Z * list Z)) * list Z :=
